@@ -274,7 +274,7 @@ int fault_next(int call)
         /* an EINTR or EAGAIN with a parameter N > 1 is a burst: the same answer N times in a row (a signal storm, a receiver that
            stays away for a while) */
         int last = o->f[o->fpos[call] - 1];
-        if (F_CALL(last) == call && (F_OUT(last) == FO_EINTR || F_OUT(last) == FO_EAGAIN) && F_PARAM(last) > 1 && o->frep[call] + 1 < F_PARAM(last)) { o->frep[call]++; return last; }
+        if (F_CALL(last) == call && (F_OUT(last) == FO_EINTR || F_OUT(last) == FO_EAGAIN) && F_PARAM(last) > 1 && o->frep[call] + 1 < F_PARAM(last)) { o->frep[call]++; probe_hit("fault_burst"); return last; }
     }
     for (int i = o->fpos[call]; i < o->nf; i++) {
         if (F_CALL(o->f[i]) == call) { o->fpos[call] = i + 1; o->frep[call] = 0; return o->f[i]; }
